@@ -128,8 +128,10 @@ class Gen:
             return b"d/../" + t
         if k < 0.75:
             return t.replace(b"/", b"//", 1) if b"/" in t else b".//" + t
-        if k < 0.80:
+        if k < 0.78:
             return t + b"/."
+        if k < 0.80:
+            return t + b"/"            # a single trailing slash is dropped by canonicalisation too
         if k < 0.85:
             return b"${pfx}" + t       # pfx usually undefined -> empty
         if k < 0.90:
